@@ -63,19 +63,24 @@ Proof. exact write_order_explicit. Qed.
 Print Assumptions C07_order_explicit.
 
 (* The argument order of handleBid -> StoreCommitment -> Pack -> Send in the Go source, pinned as source
-   text regenerated on every run (a swap of two same-typed arguments breaks these equalities); [store_args]
+   text regenerated on every run (a swap of two same-typed arguments at a call site, or of two same-typed parameters in the signature of
+   StoreCommitment, breaks these equalities); [store_args]
    lists the values in this order. *)
 Theorem C07_argument_order :
   Generated.c07_store_call =
   [[bos "ctx"; bos "bidAmt"; bos "uint64(preConfirmation.Bid.BlockNumber)"; bos "preConfirmation.Bid.TxHash";
     bos "uint64(preConfirmation.Bid.DecayStartTimestamp)"; bos "uint64(preConfirmation.Bid.DecayEndTimestamp)";
     bos "preConfirmation.Bid.Signature"; bos "preConfirmation.Signature"]] /\
+  Generated.c07_store_params =
+  [bos "ctx context.Context"; bos "bid *big.Int"; bos "blockNumber uint64"; bos "txHash string";
+   bos "deacyStartTimeStamp uint64"; bos "decayEndTimeStamp uint64"; bos "bidSignature []byte";
+   bos "commitmentSignature []byte"] /\
   Generated.c07_pack_args =
   [[bos """storeCommitment"""; bos "uint64(bid.Int64())"; bos "blockNumber"; bos "txHash"; bos "deacyStartTimeStamp";
     bos "decayEndTimeStamp"; bos "bidSignature"; bos "commitmentSignature"]] /\
   Generated.c07_send_args =
   [[bos "ctx"; bos "&evmclient.TxRequest{ To: &p.preconfContractAddr, CallData: callData, }"]].
-Proof. exact (conj store_call_order (conj pack_args_order send_args_wiring)). Qed.
+Proof. exact (conj store_call_order (conj store_params_order (conj pack_args_order send_args_wiring))). Qed.
 Print Assumptions C07_argument_order.
 (* Not modelled here: the path from the TxRequest{To, CallData} handed to client.Send to the raw
    transaction that reaches the node (evmclient.newTx copies To and CallData; nonce, gas and signing are
@@ -83,6 +88,29 @@ Print Assumptions C07_argument_order.
    the raw transaction carries the same destination and calldata is observed by the end-to-end class of the
    driver (real node.NewNode over an in-process JSON-RPC endpoint, eth_sendRawTransaction decoded). *)
 
+(* Headline, without any premise about the history: whenever a commitment c has been written to a bidder
+   (any event list), and its fields are Go values (int64 block number / timestamps, byte strings, calldata
+   shorter than 2^63), a transaction to the configured contract was submitted and reported successful whose
+   ABI-decoded arguments are, field by field, the decimal bid amount (in [1,2^64)), block number,
+   transaction-hash string, decay window, bid signature and commitment signature of that very commitment. *)
+Theorem C07_written_implies_settled : forall K addr evs h c,
+  let S := run K rules_validators (node_wiring addr) evs in
+  In (HWrite h c) (heff S) ->
+  (4 <= length (K (Abi.method_sig store_name store_tys)))%nat ->
+  (b_bn (c_bid c) < 9223372036854775808)%Z -> (b_ds (c_bid c) < 9223372036854775808)%Z ->
+  (b_de (c_bid c) < 9223372036854775808)%Z ->
+  wf_bytes (b_tx (c_bid c)) -> wf_bytes (b_sig (c_bid c)) -> wf_bytes (c_sig c) ->
+  (forall amt, Abi.blen (Abi.encode (store_args amt c)) < Abi.two63) ->
+  exists amt cd,
+    (0 < amt < 18446744073709551616)%Z /\ parse_bigint (b_amt (c_bid c)) = Some amt /\
+    In (HSend h addr cd) (heff S) /\ In (HStored h true) (heff S) /\
+    Abi.decode_call store_tys cd =
+    Some (Abi.selector K (Abi.method_sig store_name store_tys),
+          [Abi.VUint64 (Z.to_N amt); Abi.VUint64 (Z.to_N (b_bn (c_bid c))); Abi.VString (b_tx (c_bid c));
+           Abi.VUint64 (Z.to_N (b_ds (c_bid c))); Abi.VUint64 (Z.to_N (b_de (c_bid c)));
+           Abi.VBytes (b_sig (c_bid c)); Abi.VBytes (c_sig c)]).
+Proof. exact written_implies_settled. Qed.
+Print Assumptions C07_written_implies_settled.
 (* Every transaction the handlers submit goes to the configured contract. *)
 Theorem C07_destination : forall K addr evs h to cd,
   In (HSend h to cd) (heff (run K rules_validators (node_wiring addr) evs)) -> to = addr.
